@@ -6,8 +6,6 @@ package oracle
 // violation is reported with the H line that replays it; a trailing `#<class>` token marks
 // the two classes recorded in KNOWN_FINDINGS.txt (the token is ignored by the H handlers):
 //
-//	#bitmap-field-marked-by-first-use   GetFields / Unmarshal do not list the bitmap field
-//	                                    (id 1) until Pack / JSON / Describe / Clone run once
 //	#describe-stale-bitmap              Describe prints the bitmap of the last Pack / Unpack
 //	#failed-decode-residue              a decoder that stopped half-way left subfields in an
 //	                                    unmarked composite; a later Marshal shows them
@@ -578,15 +576,6 @@ func packedBits(c *hcase, m *iso8583.Message, packed []byte, mtiSet bool) ([]int
 	return ids, true
 }
 
-func withoutOne(ids string) string {
-	var out []string
-	for _, p := range strings.Split(ids, ",") {
-		if p != "1" && p != "" {
-			out = append(out, p)
-		}
-	}
-	return strings.Join(out, ",")
-}
 
 func checkPresenceAgree(rep *Reporter, c *hcase) {
 	line := c.line(c.ops, "")
@@ -606,11 +595,9 @@ func checkPresenceAgree(rep *Reporter, c *hcase) {
 		packed, perr := m.Pack()
 		after := reportedTree(msgFieldsByName(m))
 		if after != got {
-			note := ""
-			if strings.Trim(strings.Replace(","+after+",", ",1,", ",", 1), ",") == got {
-				note = "bitmap-field-marked-by-first-use"
-			}
-			rep.Viol("GetFields reports a different set before and after Pack", c.line(c.ops, note),
+			// (the bitmap field, id 1, is part of every message from NewMessage on: Pack must
+			// not add it either)
+			rep.Viol("GetFields reports a different set before and after Pack", line,
 				fmt.Sprintf("before: [%s] after: [%s]", got, after))
 		}
 		if perr != nil {
@@ -653,6 +640,25 @@ func (c *hcase) failedDecode() bool {
 		res := impl.ApplyOp(st, op)
 		if (strings.HasPrefix(op, "upk:") || strings.HasPrefix(op, "set:")) && res != "ok" {
 			return true
+		}
+		// Clone unpacks the packed original into the new message and ignores the error: if the
+		// packed bytes do not unpack (content outside the domain, e.g. a positional composite
+		// with a gap), the clone is such a half-decoded message
+		if op == "clone" && res == "ok" && st.Other != nil {
+			failed := false
+			func() {
+				defer func() {
+					if recover() != nil {
+						failed = true
+					}
+				}()
+				if b, err := st.Other.Pack(); err == nil {
+					failed = iso8583.NewMessage(c.spec).Unpack(b) != nil
+				}
+			}()
+			if failed {
+				return true
+			}
 		}
 	}
 	return false
@@ -705,6 +711,34 @@ func checkUnsetDiscards(rep *Reporter, c *hcase, r *gen.Rng, g *gen.FieldGen) {
 				fmt.Sprintf("got %s, a new message gives %s", a, b))
 		}
 	})
+
+	// (1b) the same with an Unpack of a message that does not contain the field instead of
+	// UnsetField: "the fields written since creation or the last Unpack"
+	mm := g.Msg(st)
+	mm.Kids = mm.Kids[:1]
+	if res := impl.Run("M " + c.specS + " pack " + mm.String()); strings.HasPrefix(res, "ok ") {
+		upk := "upk:" + strings.TrimPrefix(res, "ok ")
+		opsU := with(c.ops, upk, marshalOne)
+		lineU := c.line(opsU, "")
+		safely(rep, lineU, func() {
+			m := c.replay(opsU).Cur
+			fresh := c.replay([]string{upk, marshalOne}).Cur
+			f1, ok1 := m.GetFields()[atoi(id)]
+			f2, ok2 := fresh.GetFields()[atoi(id)]
+			rep.Case(lineU)
+			if ok1 != ok2 {
+				rep.Viol("after Unpack a Marshal is accepted on a used message and refused on a new one (or vice versa)", lineU, "")
+				return
+			}
+			if !ok1 {
+				return
+			}
+			if a, b := impl.ValueTree(f1).String(), impl.ValueTree(f2).String(); a != b {
+				rep.Viol("after Unpack of a message without the field, a Marshal of one subfield shows subfields written before the Unpack", lineU,
+					fmt.Sprintf("field %s: got %s, a new message gives %s", id, a, b))
+			}
+		})
+	}
 
 	// (2) UnsetFields(id.tag) then Marshal of a sibling: the unset subfield stays away
 	if len(subs) < 2 {
@@ -766,8 +800,88 @@ func checkC14History(rep *Reporter, c *hcase) {
 	checkPresenceAgree(rep, c)
 }
 
+// subtree of a value tree at a tag path ("" if absent)
+func subtreeAt(v *impl.Tree, path []string) string {
+	for _, tag := range path {
+		var next *impl.Tree
+		for _, kv := range v.Kids {
+			if kv.Name == "kv" && len(kv.Kids) == 2 && kv.Kids[0].Name == tag {
+				next = kv.Kids[1]
+			}
+		}
+		if next == nil {
+			return ""
+		}
+		v = next
+	}
+	return v.String()
+}
+
+// unset by path of a composite that has a composite child, then partial re-population of that
+// child: below the unset point the message must hold exactly what was written after the unset
+// (what a new message holds after the same partial write)
+func checkNestedUnset(rep *Reporter, c *hcase, scenario []string) {
+	var id int
+	var path []string
+	upsAt := -1
+	for i, op := range scenario {
+		if strings.HasPrefix(op, "ups:") {
+			p := strings.SplitN(op, ":", 3)
+			b, _ := impl.UnHex(p[2])
+			id, path, upsAt = atoi(p[1]), strings.Split(string(b), "."), i
+		}
+	}
+	if upsAt < 0 || upsAt+1 >= len(scenario) {
+		return
+	}
+	partial := scenario[upsAt+1]
+	ops := with(c.ops, scenario...)
+	line := c.line(ops, "")
+	safely(rep, line, func() {
+		m := c.replay(ops).Cur
+		fresh := c.replay([]string{partial}).Cur
+		f1, ok1 := m.GetFields()[id]
+		f2, ok2 := fresh.GetFields()[id]
+		rep.Case(line)
+		if !ok1 || !ok2 {
+			return // the partial write was refused on both, or the field was unset by a random op
+		}
+		got := subtreeAt(impl.ValueTree(f1), path)
+		want := subtreeAt(impl.ValueTree(f2), path)
+		if got != want {
+			rep.Viol("after unsetting a nested composite by path, a partial write below it shows values from before the unset", line,
+				fmt.Sprintf("field %d below %s: got %s, a new message gives %s", id, strings.Join(path, "."), got, want))
+		}
+	})
+}
+
 func runC14(t gen.Tier, r *gen.Rng, rep *Reporter) {
 	g := gen.NewFieldGen(r)
+	// composites nested three deep: on the fixed spec (60 → n1 → d → u, v) …
+	for i := 0; i < t.N(60, 1500); i++ {
+		var prefix []string
+		if i > 0 {
+			prefix = randomFixedOps(r, r.Intn(4), false)
+		}
+		full := "mar:60:c(kv(n1,c(kv(x,s(6e78)),kv(d,c(kv(u,s(6e75)),kv(v,s(6e76)))))),kv(p1,s(6e70)))"
+		partial := gen.Pick(r, []string{
+			"mar:60:c(kv(n1,c(kv(d,c(kv(v,s(7076)))))))", "mar:60:c(kv(n1,c(kv(d,c()))))",
+			"jd:doc(f(60,c(kv(n1,c(kv(d,c(kv(u,s(6a75)))))))))"})
+		checkNestedUnset(rep, fixedCase(prefix), []string{full, "ups:60:" + impl.Hex([]byte("n1")), partial})
+	}
+	// … and on generated specs
+	found := 0
+	for tries := 0; found < t.N(150, 3000) && tries < t.N(6000, 120000); tries++ {
+		spec := g.MsgSpec(3 + r.Intn(2))
+		sc := gen.HNestedScenario(g, spec)
+		if sc == nil {
+			continue
+		}
+		found++
+		if c, ok := newCase(spec.String(), gen.HRandomOps(g, spec, r.Intn(3))); ok {
+			checkNestedUnset(rep, c, sc)
+		}
+	}
 	forCases(t, r, t.N(400, 8000), t.N(400, 8000), t.N(300, 8000), func(c *hcase) {
 		for k := 1; k <= len(c.ops); k++ { // at every point of the history
 			checkPresenceAgree(rep, &hcase{specS: c.specS, spec: c.spec, ops: c.ops[:k]})
@@ -901,11 +1015,7 @@ func checkReadOnly(rep *Reporter, c *hcase, r *gen.Rng) {
 			d := describeText(c.replay(ops).Cur)
 			rep.Case(line)
 			if s != base {
-				note := ""
-				if s.V == base.V && s.P == base.P && s.J == base.J && withoutOne(s.I) == withoutOne(base.I) {
-					note = "bitmap-field-marked-by-first-use"
-				}
-				rep.Viol("a read-only operation ("+ro+") changes what is observed afterwards", c.line(ops, note),
+				rep.Viol("a read-only operation ("+ro+") changes what is observed afterwards", line,
 					fmt.Sprintf("before: %s | after: %s", base, s))
 			} else if d != baseD {
 				note := ""
@@ -924,11 +1034,7 @@ func checkReadOnly(rep *Reporter, c *hcase, r *gen.Rng) {
 				s2 = observe(st2.Cur)
 			}
 			if s2 != baseLater {
-				note := ""
-				if s2.V == baseLater.V && s2.P == baseLater.P && s2.J == baseLater.J && withoutOne(s2.I) == withoutOne(baseLater.I) {
-					note = "bitmap-field-marked-by-first-use"
-				}
-				rep.Viol("a read-only operation ("+ro+") changes the outcome of later operations", c.line(ops2, note),
+				rep.Viol("a read-only operation ("+ro+") changes the outcome of later operations", c.line(ops2, ""),
 					fmt.Sprintf("without: %s | with: %s", baseLater, s2))
 			}
 		})
